@@ -1,6 +1,7 @@
 """Shard-side context: counters, verdict records, deterministic per-case randomness."""
 import hashlib
 import json
+import sys
 import traceback
 import warnings
 import zlib
@@ -86,6 +87,8 @@ class Ctx:
         self.worst = {}
         self.notes = []
         self.sets = defaultdict(set)
+        if sys.flags.optimize:
+            self.counters["interpreter:python -O shards"] += 1
 
     # ---- randomness: every case has its own generator, so a case can be replayed alone
     def rng(self, kind, idx):
@@ -94,6 +97,8 @@ class Ctx:
     def case_id(self, kind, idx, **extra):
         d = {"kind": kind, "idx": int(idx), "seed": self.seed}
         d.update(extra)
+        if sys.flags.optimize:
+            d["python_O"] = int(sys.flags.optimize)
         self.last_case = d
         return d
 
@@ -139,6 +144,8 @@ class Ctx:
         """Record a violated clause.  `mechanism` is a stable tag used only for known-finding matching."""
         self.n_violations += 1
         self.counters["violated:" + clause] += 1
+        if sys.flags.optimize and isinstance(case, dict) and "python_O" not in case:
+            case = dict(case, python_O=int(sys.flags.optimize))
         if mechanism is not None:
             self.counters["mech:" + mechanism] += 1
             keep = sum(1 for v in self.violations if v.get("mechanism") == mechanism) < 2
